@@ -14,6 +14,7 @@ import (
 	"github.com/ryogrid/SamehadaDB/lib/common"
 	"github.com/ryogrid/SamehadaDB/lib/concurrency"
 	"github.com/ryogrid/SamehadaDB/lib/execution/executors"
+	"github.com/ryogrid/SamehadaDB/lib/execution/expression"
 	"github.com/ryogrid/SamehadaDB/lib/execution/plans"
 	"github.com/ryogrid/SamehadaDB/lib/parser"
 	"github.com/ryogrid/SamehadaDB/lib/planner"
@@ -530,4 +531,35 @@ func typedNull(t ColType) types.Value {
 		v = types.NewBoolean(false)
 	}
 	return *v.SetNull()
+}
+
+// PointScan runs a plan-level index point scan (PointScanWithIndexPlanNode is not produced by the
+// SQL planner, but it is part of the execution engine the properties anchor on): rows of table
+// whose column col equals val, all columns.
+func (t *STxn) PointScan(table string, col string, val any) (res ExecResult) {
+	s := t.s
+	if s.Dead {
+		res.Err = errDead
+		return
+	}
+	defer s.catch(&res.Panic)
+	tm := s.Cat.GetTableByName(table)
+	if tm == nil {
+		res.Err = fmt.Errorf("no table %s", table)
+		return
+	}
+	sc := tm.Schema()
+	ci := sc.GetColIndex(col)
+	v := types.NewValue(val)
+	pred := expression.NewComparison(expression.NewColumnValue(0, ci, v.ValueType()), expression.NewConstantValue(v, v.ValueType()), expression.Equal, types.Boolean)
+	plan := plans.NewPointScanWithIndexPlanNode(s.Cat, sc, pred.(*expression.Comparison), tm.OID())
+	res.Plan = "PointScanWithIndex(plan-level)"
+	ctx := executors.NewExecutorContext(s.Cat, s.Shi.GetBufferPoolManager(), t.Txn)
+	result := s.Eng.Execute(plan, ctx)
+	if t.Txn.GetState() == access.ABORTED {
+		res.Aborted = true
+		return
+	}
+	res.Rows = convRows(samehada_util.ConvTupleListToValues(sc, result))
+	return
 }
